@@ -9,6 +9,7 @@ from sa.rules import tokenizer_rules as K
 from sa.rules import synth_rules as SY
 from sa.rules import ranges as RG
 from sa.rules import bounds_rules as BR
+from sa.rules import flow_rules as FL
 from sa.rules import traversal as T
 from sa.rules import validators as V
 
@@ -56,5 +57,6 @@ def main(tier):
     chk.run("R-SNIPPETGUARD", S.snippetguard, r, floor=1)
     chk.run("R-BOUNDINF", BR.boundinf, r, floor=1)
     chk.run("R-ERRSINK", P.errsink, r, floor=20)
+    chk.run("R-ASSERTEFFECT", FL.asserteffect, r, floor=100)
     chk.run("R-LINESPLIT", K.linesplit, r, side="printer", floor=1)
     return chk.finish()
